@@ -842,7 +842,32 @@ def flatten_str(t):
     return [t]
 
 
+def check_flag_plumbing(rep, repo):
+    """R4: Solver.get_results_short / _long ask for the stability line exactly when -stab was given"""
+    gr = repo.method('Model', 'get_results')
+    OPT = I(A(A(S('self'), 'options_parser'), 'extra_constraints'), A(S('Extra_constraints'), 'STAB'))
+    for name in ('get_results_short', 'get_results_long'):
+        g = repo.method('Solver', name, required=False)
+        if g is None:
+            continue
+        try:
+            effs, _ = Interp(repo).run(g, {})
+        except Unknown as u:
+            rep.inconclusive('C06.R4', g.where, 'the getter is inside the interpreted fragment', got=str(u))
+            continue
+        calls = [e for e, c in iter_effects(effs) if e.kind in ('call', 'callo') and e.target is gr]
+        if not calls:
+            rep.inconclusive('C06.R4', g.where, '%s renders through Model.get_results' % name, got='no call found')
+            continue
+        for e in calls:
+            flag = e.args[1] if len(e.args) > 1 else dict(getattr(e, 'kw', ()) or ()).get(gr.params[2] if len(gr.params) > 2 else 'stable_correctness')
+            ok = flag is not None and flag in (OPT, CALL(S('bool'), [OPT]), CMP('Eq', OPT, TRUE), CMP('Is', OPT, TRUE), ('ite', OPT, TRUE, FALSE))
+            rep.check(ok, 'C06.R4', g.where, '%s asks for stability_correct exactly when the stability option is set' % name, got=show(flag)[:100] if flag is not None else 'no flag passed',
+                      want='extra_constraints[STAB]', construct='stability flag of %s' % name, loc=e.loc)
+
+
 def check_caller(rep, repo):
+    check_flag_plumbing(rep, repo)
     f = repo.method('Model', 'get_results')
     cs = repo.method('Model', 'check_stability')
     it = Interp(repo)
